@@ -227,11 +227,12 @@ def link_noise(rng, n=3, i=0):
 
 
 def udp_frame(ep, d, payload, bad_csum=False):
+    enc = getattr(ep, "encap", ns.PLAIN)
     if d == "c":
         u = ns.udp_datagram(ep.cip, ep.sip, ep.cport, ep.sport, payload, bad_csum=bad_csum)
-        return ns.eth_frame(ep.cmac, ep.smac, ns.ip_packet(ep.cip, ep.sip, 17, u))
+        return ns.eth_frame(ep.cmac, ep.smac, ns.ip_packet(ep.cip, ep.sip, 17, u, opts=enc.opts, ext=enc.ext), vlan=enc.vlan)
     u = ns.udp_datagram(ep.sip, ep.cip, ep.sport, ep.cport, payload, bad_csum=bad_csum)
-    return ns.eth_frame(ep.smac, ep.cmac, ns.ip_packet(ep.sip, ep.cip, 17, u))
+    return ns.eth_frame(ep.smac, ep.cmac, ns.ip_packet(ep.sip, ep.cip, 17, u, opts=enc.opts, ext=enc.ext), vlan=enc.vlan)
 
 
 def quic_flow(qconn, ep):
